@@ -28,11 +28,26 @@ impl Parser for Typst {
         let mut buf = Vec::new();
         let exprs = typst_tree.exprs().collect_vec();
         let exprs = convert_parbreaks(&mut buf, &exprs);
-        exprs
+        let mut tokens = exprs
             .into_iter()
             .filter_map(|ex| parse_helper.parse_expr(ex, OffsetCursor::new(&typst_document)))
             .flatten()
-            .collect_vec()
+            .collect_vec();
+
+        // On an unfinished construct (`#show "x":`, `#while "x"`, `#let f(x`) the accessors of
+        // `typst_syntax` fall back to a child that was already handed out (the transform of a show
+        // rule without one IS its selector), so the translator emits those tokens a second time,
+        // behind the ones that follow them in the text. Tokens must never run backwards.
+        let mut covered = 0;
+        tokens.retain(|t| {
+            if t.span.start < covered {
+                return false;
+            }
+            covered = covered.max(t.span.end);
+            true
+        });
+
+        tokens
     }
 }
 
